@@ -64,6 +64,9 @@ type hxSrv struct {
 	greeting   string
 	monitor    bool // raise protocol-legality assertions (C04)
 	failPos    string // if set: only replies at this position key may deviate
+	failVerb   string // if set: only replies to this verb may deviate
+	multiline  bool   // every reply (other than EHLO's) is sent as a two-line reply
+	wideEOD    bool   // the reply to end-of-data may also be a 1yz or 3yz reply
 
 	// state
 	state        int
@@ -118,6 +121,8 @@ var hxAllowOK2 [256]byte // '2','4','5','X'
 var hxAllowOK3 [256]byte // '3','4','5','X'
 var hxAllowOK2ND [256]byte
 var hxAllowOK3ND [256]byte
+var hxAllowWide [256]byte // '1'..'5','X'
+var hxAllowWideND [256]byte
 var hxDigit [256]byte
 
 func init() {
@@ -132,6 +137,12 @@ func init() {
 	}
 	for _, c := range []byte{'3', '4', '5'} {
 		hxAllowOK3ND[c] = 1
+	}
+	for _, c := range []byte{'1', '2', '3', '4', '5', 'X'} {
+		hxAllowWide[c] = 1
+	}
+	for _, c := range []byte{'1', '2', '3', '4', '5'} {
+		hxAllowWideND[c] = 1
 	}
 	for c := byte('0'); c <= '9'; c++ {
 		hxDigit[c] = 1
@@ -150,7 +161,7 @@ func (s *hxSrv) pick(c *hxCmd, ok string) (code [3]byte, drop bool) {
 	k := s.posCount[key]
 	s.posCount[key] = k + 1
 	c.posKey = key + string(rune('0'+k))
-	if s.onlyOK || (s.failPos != "" && s.failPos != c.posKey) {
+	if s.onlyOK || (s.failPos != "" && s.failPos != c.posKey) || (s.failVerb != "" && s.failVerb != key) {
 		return code, false
 	}
 	if s.maxDev >= 0 && s.devs >= s.maxDev {
@@ -158,6 +169,10 @@ func (s *hxSrv) pick(c *hxCmd, ok string) (code [3]byte, drop bool) {
 	}
 	d := svByte("reply")
 	switch {
+	case s.wideEOD && key == "EOD" && !s.noDrop:
+		svAssume(hxAllowWide[d] == 1)
+	case s.wideEOD && key == "EOD":
+		svAssume(hxAllowWideND[d] == 1)
 	case ok[0] == '2' && !s.noDrop:
 		svAssume(hxAllowOK2[d] == 1)
 	case ok[0] == '2':
@@ -190,6 +205,9 @@ func (s *hxSrv) send(c *hxCmd, code [3]byte, okReply bool, extra []string) {
 	text := "reply to " + c.mark
 	if s.textOf != nil {
 		text = s.textOf(c, okReply)
+	}
+	if s.multiline && len(extra) == 0 {
+		extra = []string{"first line of the answer"}
 	}
 	for _, l := range extra {
 		s.out = append(s.out, code[0], code[1], code[2], '-')
